@@ -120,11 +120,15 @@ Corners(G, E) ==
         /\ LET fs == {f \in FacesOf(G, c) : n \in NodesOfFace(G, f)} IN
              Cardinality(fs) = G.dim /\ \A f \in fs : Boundary(E, f)}
 CornerRow(E, k, bc, c, f) == IF bc[f] = "neu" THEN RMatVec(KMat(k), E.fn[f]) ELSE RVSub(E.fc[f], E.cc[c])
+\* a rational vector scaled to an integer vector (linear dependence is not affected; keeps the test within 32 bits)
+Lcm2(a, b) == (a \div GCD(a, b)) * b
+IntRow(r) == LET L == Lcm2(Lcm2(r[1][2], r[2][2]), r[3][2])
+             IN <<r[1][1] * (L \div r[1][2]), r[2][1] * (L \div r[2][2]), r[3][1] * (L \div r[3][2])>>
 DegenerateCorner(G, E, k, bc, n, c) ==
   LET fs == SetToSeq2({f \in FacesOf(G, c) : n \in NodesOfFace(G, f)})
-      r(i) == CornerRow(E, k, bc, c, fs[i])
-  IN IF G.dim = 2 THEN RVCross(r(1), r(2)) = RVZero
-     ELSE IF G.dim = 3 THEN RVDot(r(1), RVCross(r(2), r(3))) = RZero
+      r(i) == IntRow(CornerRow(E, k, bc, c, fs[i]))
+  IN IF G.dim = 2 THEN VCross(r(1), r(2)) = VZero
+     ELSE IF G.dim = 3 THEN Det3(r(1), r(2), r(3)) = 0
      ELSE FALSE
 DegenerateCorners(G, E, k, bc, corners) == {x \in corners : DegenerateCorner(G, E, k, bc, x[1], x[2])}
 
@@ -151,11 +155,13 @@ HalfT(G, E, kc, c, f) ==
 \* half[f] = sequence of <<cell, t(cell, f)>>
 Halves(G, E, kc) == TLCEval([f \in 1..NFaces(G) |->
                        LET cs == SetToSeq2(E.f2c[f]) IN [i \in 1..Len(cs) |-> <<cs[i], HalfT(G, E, kc, cs[i], f)>>]])
-\* guard 2: heights of the halves; none is zero
-HalfOK(H) == \A f \in 1..Len(H) : \A i \in 1..Len(H[f]) :
-                H[f][i][2][1] # 0 /\ Abs(H[f][i][2][1]) <= 20000 /\ H[f][i][2][2] <= 20000
-\* faces on which the two-point transmissibility is undefined: the reciprocal halves sum to zero
-Singular(H) == {f \in 1..Len(H) : RSum([i \in 1..Len(H[f]) |-> RDiv(ROne, H[f][i][2])]) = RZero}
+\* guard 2: heights of the halves (HalfSmall); the reference is evaluated when moreover no half vanishes (HalfOK)
+HalfSmall(H) == \A f \in 1..Len(H) : \A i \in 1..Len(H[f]) : Abs(H[f][i][2][1]) <= 20000 /\ H[f][i][2][2] <= 20000
+HalfOK(H) == HalfSmall(H) /\ \A f \in 1..Len(H) : \A i \in 1..Len(H[f]) : H[f][i][2][1] # 0
+\* faces on which the two-point transmissibility is undefined: no half vanishes and the reciprocal halves sum to zero
+\* (t1 = -t2 on an interior face).  Evaluate under HalfSmall.
+Singular(H) == {f \in 1..Len(H) : /\ (\A i \in 1..Len(H[f]) : H[f][i][2][1] # 0)
+                                   /\ RSum([j \in 1..Len(H[f]) |-> RDiv(ROne, H[f][j][2])]) = RZero}
 FaceT(H, f) == RDiv(ROne, RSum([i \in 1..Len(H[f]) |-> RDiv(ROne, H[f][i][2])]))
 \* the four matrices as functions (face, column) -> rational; T = [f |-> FaceT]
 TpfaT(H) == TLCEval([f \in 1..Len(H) |-> FaceT(H, f)])
